@@ -97,7 +97,7 @@ func loadProgram(patterns []string, overlay map[string][]byte) (*Exec, error) {
 			if strings.HasPrefix(filepath.Base(f), "zz_verif_contracts") {
 				pc := x.contracts[p.PkgPath]
 				if pc == nil {
-					pc = &PkgContracts{pkg: p.PkgPath, funcs: map[string]*FuncContract{}, ifaces: map[string]*FuncContract{}, imports: map[string]string{}}
+					pc = &PkgContracts{pkg: p.PkgPath, funcs: map[string]*FuncContract{}, ifaces: map[string]*FuncContract{}, imports: map[string]string{}, macros: map[string]*Macro{}}
 					x.contracts[p.PkgPath] = pc
 				}
 				src, ok := overlay[f]
